@@ -29,11 +29,12 @@ type toolTree struct {
 }
 
 type toolCase struct {
-	Pre   toolTree   `json:"pre"`
-	Cmd   []any      `json:"cmd"`
-	Post  toolTree   `json:"post"`
-	Exit  int        `json:"exit"`
-	Wrote [][]string `json:"wrote"`
+	Pre     toolTree   `json:"pre"`
+	Cmd     []any      `json:"cmd"`
+	Post    toolTree   `json:"post"`
+	Exit    int        `json:"exit"`
+	Wrote   [][]string `json:"wrote"`
+	Reports [][]any    `json:"reports"` // compare in text mode: (rule id, unchanged) per rule file in walk order
 }
 
 var toolFiles = []string{"932100-chain1", "932100", "932110"}
@@ -209,6 +210,7 @@ func toolArgs(cmd []any) []string {
 	return nil
 }
 
+var reCompareVerdict = regexp.MustCompile(`(?m)^Regex of (\d+) (has not changed|has changed!)$`)
 var reRegexLine = regexp.MustCompile(`^[^\s]+$`)
 
 func checkToolchain(c *Ctx, prop string) error {
@@ -289,10 +291,15 @@ func checkToolchain(c *Ctx, prop string) error {
 	}
 	sort.Slice(cases, func(i, j int) bool { return jsonStr(cases[i]) < jsonStr(cases[j]) })
 	if len(cases) > quota {
-		// keep a deterministic sample, stratified by command
+		// keep a deterministic sample, stratified by command, expected exit status and whether the
+		// model says something is written (rare classes - e.g. compare --all that succeeds - get
+		// the same share as frequent ones)
 		byCmd := map[string][]toolCase{}
 		for _, tc := range cases {
-			k := tc.Cmd[0].(string)
+			k := fmt.Sprintf("%v exit=%d writes=%v", tc.Cmd[0], tc.Exit, len(tc.Wrote) > 0)
+			if b, ok := tc.Cmd[len(tc.Cmd)-1].(bool); ok {
+				k += fmt.Sprintf(" %v", b) // github mode / --check
+			}
 			byCmd[k] = append(byCmd[k], tc)
 		}
 		var keep []toolCase
@@ -400,6 +407,24 @@ func toolReplay(c *Ctx, env *toolEnv, name string, tc *toolCase, cli *int64) {
 		}
 		if tc.Exit == 0 && r.Stdout != env.g[tc.Pre.Src[tc.Cmd[1].(string)]] {
 			bad("generate prints a different regex than for the same program on its own", nil)
+		}
+	}
+	// compare in text mode: the verdicts printed, in order (Toolchain!Reports)
+	if name, _ := tc.Cmd[0].(string); (name == "compare-all" || name == "compare") && tc.Cmd[len(tc.Cmd)-1] == false {
+		var got []string
+		for _, m := range reCompareVerdict.FindAllStringSubmatch(r.Stdout, -1) {
+			got = append(got, m[1]+" "+m[2])
+		}
+		var want []string
+		for _, rp := range tc.Reports {
+			v := "has changed!"
+			if same, _ := rp[1].(bool); same {
+				v = "has not changed"
+			}
+			want = append(want, fmt.Sprint(rp[0])+" "+v)
+		}
+		if strings.Join(got, "; ") != strings.Join(want, "; ") {
+			bad(fmt.Sprintf("compare reports [%s], the model says [%s]", strings.Join(got, "; "), strings.Join(want, "; ")), nil)
 		}
 	}
 	// the changed paths must be exactly the components the model says were written
